@@ -388,6 +388,29 @@ Section Budget.
     rows <- gather s ncx y o ;;
     Ok (cut_rows (o_max o) (isort (before_u true) (trim_rows (o_trim o) (map unlabel rows)))).
 
+  (* ---------- reporting.u_component(y, x) for every kind of y and x ---------- *)
+  (* UncertainReal.u_component(x) for an uncertain complex x = (xr, xi): one lookup per part, in
+     the independent or the dependent vector according to the part's leaf *)
+  Definition ucomp_part (s : state) (y xr xi x_i : ureal) : res V :=
+    match unode x_i with
+    | LeafRef k => l <- leaf_of N s k ;; Ok (if l_indep l then vget N (uc y) k else vget N (dc y) k)
+    | NodeRef k => Ok (vget N (ic y) k)
+    | _ => if is_constant N xr && is_constant N xi then Ok zero else Err TypeError
+    end.
+
+  Definition ucomp_rc (s : state) (y xr xi : ureal) : res (V * V * V * V) :=
+    a <- ucomp_part s y xr xi xr ;; b <- ucomp_part s y xr xi xi ;; Ok (a, b, zero, zero).
+
+  (* a float for real y and real x, else the 4-sequence ComponentOfUncertainty *)
+  Definition u_component_any (s : state) (y : yval) (i : infl) : res (list V) :=
+    match y, i with
+    | YReal yr, IReal x => c <- u_component N s yr x ;; Ok [c]
+    | YReal yr, IComplex xr xi _ => '(a, b, c, d) <- ucomp_rc s yr xr xi ;; Ok [a; b; c; d]
+    | YComplex yre yim, IReal _ => '(a, b, c, d) <- ucomp_c s yre yim i ;; Ok [a; b; c; d]
+    | YComplex yre yim, IComplex _ _ _ => '(a, b, c, d) <- ucomp_c s yre yim i ;; Ok [a; b; c; d]
+    | _, _ => Err OtherExn
+    end.
+
   (* ---------- what a declared (elementary / constant) number looks like ---------- *)
   (* UncertainReal._elementary (Kernel.elementary): the leaf itself, with its standard
      uncertainty -- EVEN WHEN THAT IS 0, as for one component of ucomplex(z,(u,0)) -- is the only
